@@ -1047,7 +1047,7 @@ impl SubRule {
         }
 
         if match_begin.is_none() {
-            if let ParseElement::WordBound | ParseElement::SyllBound | ParseElement::Structure(..) = states.first().unwrap().kind {
+            if let ParseElement::WordBound | ParseElement::SyllBound = states.first().unwrap().kind {
                 let sy = word.syllables.len() - 1;
                 let sg = word.syllables[sy].segments.len();
                 Ok(Some(SegPos::new(sy, sg)))
